@@ -176,6 +176,24 @@ Definition export_matches (d : dataset) : list (string * list (string * list (Z 
   | _ => fold_left (fun m im => insert (i_name im) (matches_of d (i_name im)) m) (d_images d) []
   end.
 
+(* ---- a re-used export target.  export_opensfm never empties the directory it writes into (force_overwrite_existing
+   only reaches the copy of the image files): reconstruction.json and camera_models.json are rewritten, a features file
+   is written over for every image of the dataset that has keypoints or descriptors, a matches file is written over for
+   every image of the dataset when the dataset has matches; every other file of an earlier export stays where it is
+   and is picked up by the importer, which walks the features / matches folders.  [prev] = what is there before. *)
+Definition export_features_onto (prev : list (string * (option arr * option arr))) (d : dataset)
+  : list (string * (option arr * option arr)) :=
+  fold_left (fun m im => match feature_entry d (i_name im) with
+                         | Some e => insert (i_name im) e m
+                         | None => m end) (d_images d) prev.
+
+Definition export_matches_onto (prev : list (string * list (string * list (Z * Z)))) (d : dataset)
+  : list (string * list (string * list (Z * Z))) :=
+  match d_matches d with
+  | [] => prev
+  | _ => fold_left (fun m im => insert (i_name im) (matches_of d (i_name im)) m) (d_images d) prev
+  end.
+
 Section Convert.
   Variable to_rotvec : quat -> vec.          (* quaternion.as_rotation_vector *)
   Variable of_rotvec : vec -> quat.          (* quaternion.from_rotation_vector *)
@@ -195,6 +213,14 @@ Section Convert.
     bind (export_points (d_points d)) (fun pts =>
     Ok {| o_cameras := cams; o_shots := export_shots d; o_points := pts; o_camera_models := cams;
           o_features := export_features d; o_matches := export_matches d |})).
+
+  (* export into a directory that already holds the project [prev] (an empty directory: [empty_project]) *)
+  Definition export_onto (prev : project) (d : dataset) : result project :=
+    bind (export_cameras (d_cameras d)) (fun cams =>
+    bind (export_points (d_points d)) (fun pts =>
+    Ok {| o_cameras := cams; o_shots := export_shots d; o_points := pts; o_camera_models := cams;
+          o_features := export_features_onto (o_features prev) d;
+          o_matches := export_matches_onto (o_matches prev) d |})).
 
   (* ---------------------------------------------------------------- import *)
   Definition import_camera (oc : ocamera) : result camera :=
@@ -302,6 +328,8 @@ Section Convert.
 
   Definition roundtrip (d : dataset) : result dataset := bind (export d) import_.
   Definition roundtrip_repaired (d : dataset) : result dataset := bind (export d) import_repaired.
+  (* the round trip through a re-used directory *)
+  Definition roundtrip_onto (prev : project) (d : dataset) : result dataset := bind (export_onto prev d) import_.
 
   (* ---------------------------------------------------------------- the tree before the four committed repairs
      (3642976 features npz, 066b9d5 np.int, 6848012 empty cloud, 5fdd6d1 optional arrays) *)
@@ -343,6 +371,30 @@ Section Convert.
 
   Definition roundtrip_legacy (d : dataset) : result dataset := bind (export_legacy d) import_legacy.
 End Convert.
+
+Definition empty_project : project := mkP [] [] None [] [] [].
+(* a project / a dataset with other features and matches *)
+Definition with_fm (p : project) (f : list (string * (option arr * option arr)))
+           (m : list (string * list (string * list (Z * Z)))) : project :=
+  {| o_cameras := o_cameras p; o_shots := o_shots p; o_points := o_points p; o_camera_models := o_camera_models p;
+     o_features := f; o_matches := m |}.
+Definition set_fm (d : dataset) (k ds : list (string * arr)) (m : list ((string * string) * list mrow)) : dataset :=
+  {| d_cameras := d_cameras d; d_images := d_images d; d_traj := d_traj d; d_points := d_points d;
+     d_keypoints := k; d_descriptors := ds; d_matches := m |}.
+
+(* what kapture_from_dir hands back of a dataset directory (the harness reads the re-imported dataset with it): the features
+   of recorded images only and the match pairs between recorded images only.  The identity on what the importer makes of a
+   fresh export; it only matters for the leftovers of an earlier export about images that are not in the new one. *)
+Definition loaded_view (d : dataset) : dataset :=
+  let ns := map i_name (d_images d) in
+  set_fm d (filter (fun e => memb (fst e) ns) (d_keypoints d))
+           (filter (fun e => memb (fst e) ns) (d_descriptors d))
+           (filter (fun e => memb (fst (fst e)) ns && memb (snd (fst e)) ns) (d_matches d)).
+
+(* every features / matches file of the earlier project is one the export of [d] writes again *)
+Definition covered_by (prev : project) (d : dataset) : Prop :=
+  (forall n, lookup n (o_features prev) <> None -> memb n (map i_name (d_images d)) = true /\ feature_entry d n <> None)
+  /\ (forall a, lookup a (o_matches prev) <> None -> d_matches d <> [] /\ memb a (map i_name (d_images d)) = true).
 
 (* ------------------------------------------------------------------ the range of OpenSfM's perspective model *)
 Definition is_int (q : Q) : bool := Qeq_bool (inject_Z (qtrunc q)) q.
@@ -427,7 +479,8 @@ Definition exp_series (v : vec) : quat :=
    One case = the dataset the exporter read (kapture_from_dir of the input directory, exact rationals),
    the rotation vectors the library returned for its quaternions, and what the implementation was
    observed to do: the project it wrote (None = export raised) and the dataset read back from the
-   directory the importer wrote (None = import raised). *)
+   directory the importer wrote (None = import raised).  For a history (the export directory was used
+   before) [k_prior] is the project read from that directory just before the export under test. *)
 Definition quat_eqb (a b : quat) : bool :=
   Qeq_bool (qw a) (qw b) && Qeq_bool (qx a) (qx b) && Qeq_bool (qy a) (qy b) && Qeq_bool (qz a) (qz b).
 Definition vec_eqb (a b : vec) : bool :=
@@ -442,6 +495,7 @@ Fixpoint table_rotvec (tbl : list (quat * vec)) (q : quat) : vec :=
 Record case := mkCase {
   k_d : dataset;
   k_rotvec : list (quat * vec);
+  k_prior : option project;       (* what the export directory held before (None = a fresh directory) *)
   k_project : option project;
   k_back : option dataset
 }.
@@ -568,7 +622,10 @@ Definition contract_ok (tbl : list (quat * vec)) : bool :=
 
 Definition check_case (c : case) : bool :=
   let to_rv := table_rotvec (k_rotvec c) in
-  match export to_rv (k_d c), k_project c with
+  match (match k_prior c with
+         | None => export to_rv (k_d c)
+         | Some prev => export_onto to_rv prev (k_d c)
+         end), k_project c with
   | Err _, None => match k_back c with None => true | Some _ => false end
   | Err _, Some _ => false
   | Ok _, None => false
@@ -576,7 +633,7 @@ Definition check_case (c : case) : bool :=
       project_agree p po && contract_ok (k_rotvec c)
       && match import_ exp_series p, k_back c with
          | Err _, None => true
-         | Ok dm, Some dobs => dataset_agree dm dobs
+         | Ok dm, Some dobs => dataset_agree (loaded_view dm) dobs
          | _, _ => false
          end
   end.
